@@ -66,9 +66,12 @@ impl Field for Ed448ScalarField {
     }
 
     fn deserialize(buf: &Self::Serialization) -> Result<Self::Scalar, FieldError> {
-        match EdwardsScalar::from_canonical_bytes(buf.into()).into() {
-            Some(s) => Ok(s),
-            None => Err(FieldError::MalformedScalar),
+        match Option::<EdwardsScalar>::from(EdwardsScalar::from_canonical_bytes(buf.into())) {
+            // The encoding must be canonical: re-serializing the scalar must
+            // give back exactly the input (the underlying check ignores the
+            // last byte).
+            Some(s) if Self::serialize(&s) == *buf => Ok(s),
+            _ => Err(FieldError::MalformedScalar),
         }
     }
 
